@@ -82,7 +82,7 @@ func genC19(r *Rand, tier string, i int) *h.Scenario {
 	for k, n := 0, r.Weighted(3, 3, 2); k < n; k++ {
 		d := h.DecSpec{Kind: h.DecProbe, Ewma: true, Text: 1, Listener: r.Bool(0.2)}
 		for w, m := 0, r.Weighted(2, 1, 1, 1); w < m; w++ {
-			d.Wrap = append(d.Wrap, r.Intn(6))
+			d.Wrap = append(d.Wrap, r.Intn(7))
 		}
 		if r.Bool(0.5) {
 			bar.Pre = append(bar.Pre, d)
@@ -91,7 +91,7 @@ func genC19(r *Rand, tier string, i int) *h.Scenario {
 		}
 	}
 	if r.Bool(0.3) {
-		bar.App = append(bar.App, h.DecSpec{Kind: []int{h.DecEwmaSpeed, h.DecEwmaETA}[r.Intn(2)], Style: r.Intn(4), Wrap: []int{r.Intn(6)}})
+		bar.App = append(bar.App, h.DecSpec{Kind: []int{h.DecEwmaSpeed, h.DecEwmaETA}[r.Intn(2)], Style: r.Intn(4), Wrap: []int{r.Intn(7)}})
 	}
 	sc.Bars = []h.BarSpec{bar}
 	sc.Initial = []int{0}
